@@ -881,7 +881,10 @@ def diff_helper(func, arr, *args, **kwargs):
                 "Quantities with units of Fahrenheit or Celsius "
                 "cannot be multiplied, divided, subtracted or added."
             )
-        ret_units = delta_degC
+        # K and delta_degC differences are labelled delta_degC; any other
+        # offset-free temperature unit (R, delta_degF, mK, ...) keeps its own
+        # unit, since the numbers are not rescaled
+        ret_units = delta_degC if u == delta_degC else u
     else:
         ret_units = u
     return func._implementation(np.asarray(arr), *args, **kwargs) * ret_units
